@@ -117,6 +117,15 @@ func main() {
 		fatalCheck(*prop, "cannot load %v: %v", pkgPaths, err)
 	}
 	tLoad := time.Since(t0).Seconds()
+	// literal-keyed assumptions: the source text an axiom was written for must still be there
+	for _, lc := range db.literals {
+		if _, loaded := prog.spkgs[lc.pkg]; !loaded {
+			continue
+		}
+		if !prog.initialiserContains(lc.pkg, lc.name, lc.text) {
+			fatalCheck(*prop, "contract-anchor: %s: initialiser of %s.%s no longer contains %q (an axiom was keyed to that literal)", lc.line, lc.pkg, lc.name, lc.text)
+		}
+	}
 
 	var all []*obligation
 	var reports []funcReport
